@@ -122,6 +122,12 @@ class C20(CheckBase):
                 lat2 = lat1            # same parallel
             elif k < 0.21:
                 lat2, lon2 = lat1, lon1
+            elif k < 0.27 and fa != 'dms':
+                # nearly antipodal points: the longest lines, hundreds of iterations in the library
+                d = rng.choice([1.0, 0.5, 0.1, 0.02])
+                lat2 = round(-lat1 + rng.uniform(-d, d), 6)
+                lon2 = lon1 + 180.0 if lon1 < 0 else lon1 - 180.0
+                lon2 = round(max(-179.999, min(179.999, lon2 + rng.uniform(-d, d))), 6)
             p = {'lat1': lat1, 'lon1': lon1, 'lat2': lat2, 'lon2': lon2}
         else:
             az = abs(ang(359)) if rng.random() < 0.85 else ang(359)
